@@ -31,3 +31,24 @@ def c01_pos_past_truncated_escape(s, pos) -> bool:
 
 def c13_unchecked_name_site(violation, name) -> bool:
     return False
+
+
+def c20_safe_retype_unreported() -> bool:
+    """KF C20-safe-retype-silent: a compatible retyping (e.g. input Int! -> Int, output Int -> Int!) is not
+    reported at all; diff_schema's docstring documents that 'compatible type changes are ignored'."""
+    return ENABLED
+
+
+def c20_output_list_item_relaxed(old_w, new_w, same) -> bool:
+    """KF C20-output-list-items: in OUTPUT position the item type of a list is compared with the INPUT rule, so
+    dropping '!' on list items ([T!] -> [T]) is classified safe.  Root cause class: the new type would be a
+    subtype of the old one if every '!' inside the old type's list items were dropped.  A correct item rule
+    contradicts tests/test_schema/test_diff_schema.py ('[Int] to [Int!]' must be reported), so it is not repaired."""
+    if not ENABLED:
+        return False
+    k = old_w.find("[")
+    if k < 0:
+        return False
+    relaxed = old_w[: k + 1] + old_w[k + 1:].replace("!", "")
+    from harness.c20 import subtype
+    return subtype(new_w, relaxed, same) and not subtype(new_w, old_w, same)
